@@ -381,7 +381,7 @@ Proof.
 Qed.
 Lemma ok_so_expire o : keeps I (so_expire cfg sd o).
 Proof.
-  unfold so_expire. kstep; [kstep|].
+  unfold so_expire. kstep; [kstep|]. kstep; [apply ok_upd; intros i; reflexivity|]. kstep; [kstep|].
   repeat kstep; try apply ok_cache_expire; apply ok_upd; intros i; reflexivity.
 Qed.
 Lemma ok_so_destroy o : keeps I (so_destroy sd o).
